@@ -25,6 +25,35 @@ Theorem C09_join_in_numeric_order :
   NoDup (map fst d) -> incl d (numbered 1 parts) -> length d = length parts -> join_parts d = concat parts.
 Proof. exact join_complete. Qed.
 
+(* History: once every message of which a segment has arrived is complete, the delivery segment store
+   is empty again (nothing accumulates, whatever the number of messages and the arrival order) ... *)
+Theorem C09_store_empty_when_complete :
+  forall fam arr,
+  wf_family fam -> Forall (belongs fam) arr -> distinct arr -> complete fam arr -> final_store [] arr = [].
+Proof. exact store_empty_when_complete. Qed.
+
+(* ... so ANY later stream - in particular later messages that use the same reference numbers again, as
+   an 8-bit reference must after 256 messages - is treated exactly as by a fresh correlator, and
+   C09_reassembly_any_order applies to it on its own. *)
+Theorem C09_reference_free_after_completion :
+  forall fam arr later,
+  wf_family fam -> Forall (belongs fam) arr -> distinct arr -> complete fam arr ->
+  reassemble [] (arr ++ later) = reassemble [] arr ++ reassemble [] later.
+Proof. exact reference_free_after_completion. Qed.
+
+(* non-vacuity of the two: reference 7 used by a 2-segment message and then again by a 3-segment one *)
+Example C09_reuse_nonvacuous :
+  ser_reassemble ([(7, 2, 2, [20]); (7, 1, 2, [10])] ++ [(7, 3, 3, [3]); (7, 1, 3, [1]); (7, 2, 3, [2])])
+  = [0; 1; 2; 10; 20] ++ [0; 0; 1; 3; 1; 2; 3]
+  /\ final_store [] [(7, 2, 2, [20]); (7, 1, 2, [10])] = []
+  /\ complete [(7, [[10]; [20]])] [(7, 2, 2, [20]); (7, 1, 2, [10])].
+Proof.
+  split; [vm_compute; reflexivity|]. split; [vm_compute; reflexivity|].
+  intros r. destruct (Z.eq_dec r 7) as [->|Hn].
+  - right. exists [[10]; [20]]. split; [left; reflexivity|reflexivity].
+  - left. unfold arrived. cbn [filter a_ref fst snd]. apply Z.eqb_neq in Hn. rewrite Z.eqb_sym, Hn. reflexivity.
+Qed.
+
 (* non-vacuity: 12 segments arriving in reverse, interleaved with a 2-segment message *)
 Example C09_nonvacuous :
   let parts := map (fun i => [i]) [1; 2; 3; 4; 5; 6; 7; 8; 9; 10; 11; 12] in
